@@ -2,6 +2,7 @@
    stay the extracted datatypes, no Extract Constant. *)
 From Coq Require Import ZArith List.
 From Coq Require Import ExtrOcamlBasic.
-From VV Require Import Base.F64 Ga.GaDefs.
+From VV Require Import Base.F64 Rng.RngDefs Rng.DistDefs Ga.GaDefs Ga.GaSeededDefs.
 Extraction "ga_model.ml" ga_create ga_mutation ga_crossover ga_cuts de_create de_crossover de_factor
-  in_range_b in_box_b F64.of_bits F64.to_bits F64.is_nan.
+  in_range_b in_box_b F64.of_bits F64.to_bits F64.is_nan
+  sga_create sga_mutation sga_crossover sde_create sde_crossover random_seed zero_state Z.to_N.
